@@ -89,79 +89,92 @@ def rule_frame(c, prog):
     for key in ((U.F_PROPS, "structural:insert"), (U.F_PROPS, "element:values_mut")):
         if key not in seen:
             c.violation(R, f"anchor|{key[0]}|{key[1]}", f"confirmed site disappeared: no {key[1]} on {key[0]} inside rbx_dom_weak (collision repair / Ref rewriting gone)", "")
-    # builder field coverage: the single struct-literal Instance of the module
-    lits = []
-    for path, fn in sorted(prog.fns.items()):
-        if fn.crate == "rbx_dom_weak" and fn.body is not None and fn.dk != "Closure" and "::test" not in path and (path.startswith(DOM)):
-            for n in core.walk_fn(fn):
-                if n.get("k") == "Struct" and n.get("def") == U.INST:
-                    lits.append((fn, n))
-    if len(lits) != 1:
-        raise core.AnchorMissing(f"rbx_dom_weak::dom: expected exactly one struct-literal Instance, found {len(lits)}")
-    fn, lit = lits[0]
-    origins = core.binding_origins(fn)
-    plids = core.param_lids(fn)
-    b_lids = [lid for nm, (lid, ty) in plids.items() if (ty or "").lstrip("&").replace("mut ", "").strip() == "rbx_dom_weak::instance::InstanceBuilder"]
-    r_lids = [lid for nm, (lid, ty) in plids.items() if (ty or "").endswith("referent::Ref")]
-    if len(b_lids) != 1:
-        raise core.AnchorMissing(f"the function building the Instance ({fn.path}) does not take exactly one InstanceBuilder")
-    blid = b_lids[0]
+    # what `insert` stores, read off the symbolic events of the public function (private helpers inlined by sa.sym):
+    # every inner_insert(key, Instance{..}) takes key / referent / name / class / properties from one and the same
+    # builder B, parent from outside B, an empty children list; and B's children are enqueued as (B.referent, child)
+    from sa import sym, wire
+    ins = prog.fn(DOM + "WeakDom::insert")
 
-    def clean(path):
-        return [p for p in path if not p.startswith(".") and p != "?"]
-    src = {}
-    for f in lit["fields"]:
-        lid, path = core.resolve_place(f["e"], origins)
-        src[f["f"]] = (lid, tuple(clean(path)))
-    c.ok(R, "build:source")
-    for k in ("referent", "name", "class", "properties"):
-        inst = f"build:{k}"
-        if src.get(k) == (blid, (k,)):
-            c.ok(R, inst)
+    def sink(name):
+        def h(I, n, path, arg_nodes, env):
+            args = [I.eval(a, env) for a in arg_nodes]
+            I.emit(("sink", name, ("tup", tuple(args)), core.loc(n)))
+            return sym.UNIT
+        return h
+    import re as _re
+    prims = [(_re.compile(r"HashMap::<K, V, S(, A)?>::insert$|AHashMap::<K, V, S>::insert$"), sink("map_insert")), (_re.compile(r"VecDeque::<T, A>::push_back$"), sink("push_back")),
+             (_re.compile(r"VecDeque::<T, A>::extend$|as core::iter::traits::collect::Extend<.*>>::extend$"), sink("extend")),
+             (_re.compile(r"alloc::vec::Vec::<T, A>::push$"), sink("vec_push"))]
+    problems = []
+    n_store = n_enq = 0
+    try:
+        env = {prm["lid"]: ("in", prm["name"]) for prm in ins.params}
+        I, val, ex = wire.run_region(prog, ins.body, env, prims, depth=6)
+
+        def contains(t, sub):
+            if t == sub:
+                return True
+            if isinstance(t, (tuple, list)):
+                return any(contains(x, sub) for x in t)
+            return False
+        stores, enq = [], []
+
+        def walk(evs, reps):
+            for e in evs:
+                if e[0] == "alt":
+                    for alt in e[1]:
+                        walk(alt[1], reps)
+                elif e[0] == "rep":
+                    walk(e[2], reps + [e[1]])
+                elif e[0] == "sink":
+                    a = e[2][1]
+                    if e[1] == "map_insert" and len(a) == 3 and a[2][0] == "st" and a[2][1] == U.INST:
+                        stores.append((a[1], dict(a[2][2])))
+                    elif e[1] == "push_back" and len(a) == 2 and a[1][0] == "tup" and len(a[1][1]) == 2:
+                        enq.append((a[1][1], list(reps)))
+        walk(I.events, [])
+        builders = []
+        for key, f in stores:
+            n_store += 1
+            if not (key[0] == "fld" and key[2] == "referent"):
+                problems.append(("referent", f"the instance is stored under `{sym.term_str(key, 3)}`, not under its builder's referent"))
+                continue
+            B = key[1]
+            builders.append(B)
+            for fld_ in ("referent", "name", "class"):
+                if f.get(fld_) != sym.fld(B, fld_):
+                    problems.append((fld_, f"Instance.{fld_} is built from `{sym.term_str(f.get(fld_), 3)}`, expected the same builder's `{fld_}`"))
+            pr = f.get("properties")
+            if pr is None or not contains(pr, sym.fld(B, "properties")):
+                problems.append(("properties", f"Instance.properties is built from `{sym.term_str(pr, 3)}`, expected the same builder's `properties`"))
+            par = f.get("parent")
+            if par is None or contains(par, B) and par != B:
+                problems.append(("parent", f"Instance.parent is built from `{sym.term_str(par, 3)}`, expected the parent handed in for that builder"))
+            ch = f.get("children")
+            if not (ch is not None and ch[0] == "vec" and not ch[1]):
+                problems.append(("children", f"Instance.children starts as `{sym.term_str(ch, 3)}`, expected an empty list (children are linked when they are inserted)"))
+        for (pair, reps) in enq:
+            par, child = pair
+            for B in builders:
+                if par == sym.fld(B, "referent") and child == ("elem", sym.fld(B, "children")) and any(sym.norm_dom(d) == sym.norm_dom(("iter", sym.fld(B, "children"))) for d in reps):
+                    n_enq += 1
+        if n_store == 0:
+            problems.append(("source", "no instance is stored by WeakDom::insert"))
+        if n_enq == 0:
+            problems.append(("children-enqueued", "no loop enqueues (builder.referent, child) for each of the builder's children"))
+    except (sym.Unsupported, core.AnalysisError) as e:
+        problems.append(("source", f"WeakDom::insert is outside the symbolic model: {e}"))
+    seen_p = set()
+    for kind in ("source", "referent", "name", "class", "properties", "parent", "children", "children-enqueued"):
+        msgs = [m for k2, m in problems if k2 == kind]
+        inst = f"build:{kind}"
+        if msgs:
+            key = {"children-enqueued": "build|children"}.get(kind, f"build|{kind}")
+            if key not in seen_p:
+                seen_p.add(key)
+                c.violation(R, key, f"WeakDom::insert: {msgs[0]}", ins.sp, instance=inst)
         else:
-            c.violation(R, f"build|{k}", f"insert builds Instance.{k} from {src.get(k)}, expected the builder's `{k}`", core.loc(lit), instance=inst)
-    # parent: a Ref parameter of the same function (not a field of the builder)
-    if src.get("parent", (None, None))[0] in r_lids and src["parent"][1] == ():
-        c.ok(R, "build:parent")
-    else:
-        c.violation(R, "build|parent", f"insert builds Instance.parent from {src.get('parent')}, expected the parent Ref parameter", core.loc(lit), instance="build:parent")
-    # children enqueued from builder.children with the new instance as parent
-
-    def is_builder_field(e, field):
-        lid, path = core.resolve_place(e, origins)
-        return lid == blid and clean(path)[:1] == [field]
-    okq = src_ok = False
-    for n in core.walk_fn(fn):
-        fl = core.as_for(n)
-        if fl is not None and n.get("k") != "DropTemps" and is_builder_field(fl[1], "children"):
-            child_lids = set()
-            stack = [fl[0]]
-            while stack:
-                x = stack.pop()
-                if isinstance(x, dict):
-                    if x.get("k") == "Binding":
-                        child_lids.add(x["lid"])
-                    stack.extend(v for v in x.values() if isinstance(v, (dict, list)))
-                elif isinstance(x, list):
-                    stack.extend(x)
-            for m in core.walk(fl[2]):
-                if m.get("k") == "MethodCall" and m["m"] in ("push_back",) and m["args"]:
-                    a = core.strip(m["args"][0])
-                    if a.get("k") == "Tup" and len(a["args"]) == 2 and is_builder_field(a["args"][0], "referent") and core.strip(a["args"][1]).get("lid") in child_lids:
-                        okq = src_ok = True
-        if n.get("k") == "MethodCall" and n["m"] == "extend" and n["args"] and is_builder_field(n["args"][0], "children"):
-            a = core.strip(n["args"][0])
-            if a.get("k") == "MethodCall" and a["m"] == "map" and core.strip(a["args"][0]).get("k") == "Closure":
-                clo = core.strip(a["args"][0])
-                body = core.strip(clo["body"])
-                while body.get("k") == "Block" and not body["b"]["stmts"] and "expr" in body["b"]:
-                    body = core.strip(body["b"]["expr"])
-                if body.get("k") == "Tup" and len(body["args"]) == 2 and is_builder_field(body["args"][0], "referent"):
-                    okq = src_ok = True
-    if okq and src_ok:
-        c.ok(R, "build:children-enqueued")
-    else:
-        c.violation(R, "build|children", "insert does not enqueue (builder.referent, child) for each builder child", fn.sp, instance="build:children-enqueued")
+            c.ok(R, inst)
     # return value = referent captured from the root builder
     ins = prog.fn(DOM + "WeakDom::insert")
     tail = core.strip(ins.body["b"].get("expr", {}))
